@@ -31,6 +31,23 @@ def X(v):
     return from_number(v)
 
 
+def fn(name, text, tree):
+    """a Function term: its text for the real object, its tree (FunctionSyntax.tla shape) for the specification"""
+    return {"name": name, "k": "Function", "p": [], "h": X(1), "text": text, "tree": tree}
+
+
+def fvar(n):
+    return {"k": "var", "n": n}
+
+
+def fnum(tok):
+    return {"k": "num", "tok": tok, "x": X(tok)}
+
+
+def fbin(o, l, r):
+    return {"k": "bin", "o": o, "l": l, "r": r}
+
+
 def term(name, k, *p, h=1):
     return {"name": name, "k": k, "p": [X(v) for v in p], "h": X(h)}
 
@@ -120,6 +137,8 @@ def build_term(fl, t):
     h = to_float(t["h"])
     if k == "Linear":
         return fl.Linear(t["name"], p)
+    if k == "Function":
+        return fl.Function(t["name"], t["text"])        # loaded and bound to its engine by the Engine constructor
     if k == "Constant":
         return fl.Constant(t["name"], p[0])
     if k == "Discrete":
